@@ -156,6 +156,10 @@ func runC14(r *core.Run) {
 			return string(f[0]) + "|" + string(f[1]) + "|" + string(f[2])
 		})
 
+	core.Clause(r, "dst-shares-memory-with-src", core.Opts{Rule: dstAliasRule},
+		genDstAlias([]string{"", "ATG", "atgGCAtggAAA", "ATGGCATGGAAATAGCCCGGGTTTACGTGA", "ATGNCA", "NNN", "AT", "ATGG"}),
+		checkDstAlias("Translate", sequtil.Translate, ref.Translate))
+
 	core.Clause(r, "dst-contents", core.Opts{Rule: dstRule},
 		genDstCases([]string{"", "ATG", "atgGCAtggAAA", "ATGGCATGGAAATAGCCCGGGTTTACGTGA", "ATGNCA", "NNN", "ATGGCATGGAAN", "AT\x00", "ATGGCATGGAAATAGCCCGGGTTTACGTG-", "AT", "ATGG"}),
 		checkDstContract("Translate", sequtil.Translate, ref.Translate))
